@@ -26,6 +26,8 @@ inductive Val where
   | bool (b : Bool)
   | bytes (bs : List Nat)
   | recd (fs : List (Int × Nat))
+  | inf (neg : Bool)          -- ±infinity (only as the neutral start value of fmax / fmin)
+  | poison                    -- a result the exact model cannot represent (the case is discarded)
 deriving DecidableEq, Repr, Inhabited
 
 /-! ### dyadic arithmetic -/
@@ -167,5 +169,46 @@ def Val.xor (dt : DT) (x w : Val) : Val :=
   | .bool a, .bool b => .bool (a != b)
   | .bytes a, .bytes b => .bytes (zipBytes (· ^^^ ·) a b)
   | _, _ => x
+
+/-- `np.fmax` / `np.fmin` on numeric cells (with ±inf start values) -/
+def Val.fmax (x w : Val) : Val :=
+  match x, w with
+  | .inf true, v => v
+  | v, .inf true => v
+  | .inf false, _ => .inf false
+  | _, .inf false => .inf false
+  | .num a ea, .num b eb => .ofDy (dyMax (a, ea) (b, eb))
+  | .bytes a, .bytes b => .bytes (zipBytes max a b)
+  | _, _ => .poison
+
+def Val.fmin (x w : Val) : Val :=
+  match x, w with
+  | .inf false, v => v
+  | v, .inf false => v
+  | .inf true, _ => .inf true
+  | _, .inf true => .inf true
+  | .num a ea, .num b eb => .ofDy (dyMin (a, ea) (b, eb))
+  | .bytes a, .bytes b => .bytes (zipBytes min a b)
+  | _, _ => .poison
+
+def Val.mul (dt : DT) (x w : Val) : Val :=
+  match x, w with
+  | .num a ea, .num b eb => .ofDy (dt.wrap (dyMul (a, ea) (b, eb)))
+  | .bytes a, .bytes b => .bytes (zipBytes (fun p q => (p * q) % 256) a b)
+  | _, _ => .poison
+
+def Val.div (x w : Val) : Val :=
+  match x, w with
+  | .num a ea, .num b eb =>
+    match dyDiv? (a, ea) (b, eb) with
+    | some y => .ofDy y
+    | none => .poison
+  | _, _ => .poison
+
+/-- `np.floor_divide` on integers (division by zero gives 0, as numpy does with a warning) -/
+def Val.floorDiv (dt : DT) (x w : Val) : Val :=
+  match x, w with
+  | .num a 0, .num b 0 => if b == 0 then .num 0 0 else .ofDy (dt.wrap (Int.fdiv a b, 0))
+  | _, _ => .poison
 
 end HS
